@@ -272,6 +272,35 @@ TheSchema == [
   ConfigParam18 |-> << Alt("cp18", <<>>, << F("prices", Hm(32, Lite(Named("StoragePrices")))) >>) >>,
   ConfigParam31 |-> << Alt("cp31", <<>>, << F("fundamental_smc_addr", HmE(256, UnitT)) >>) >>,
   ConfigParam32 |-> << Alt("cp32", <<>>, << F("prev_validators", Lite(Named("ValidatorSet"))) >>) >>,
+  \* _ elector_addr:bits256 = ConfigParam 1;  _ minter_addr:bits256 = ConfigParam 2;  _ fee_collector_addr:bits256 = ConfigParam 3;
+  \* _ dns_root_addr:bits256 = ConfigParam 4;  _ critical_params:(Hashmap 32 True) = ConfigParam 10;
+  ConfigParam1 |-> << Alt("cp1", <<>>, << F("elector_addr", Bits(256)) >>) >>,
+  ConfigParam2 |-> << Alt("cp2", <<>>, << F("minter_addr", Bits(256)) >>) >>,
+  ConfigParam3 |-> << Alt("cp3", <<>>, << F("fee_collector_addr", Bits(256)) >>) >>,
+  ConfigParam4 |-> << Alt("cp4", <<>>, << F("dns_root_addr", Bits(256)) >>) >>,
+  ConfigParam10 |-> << Alt("cp10", <<>>, << F("critical_params", Hm(32, UnitT)) >>) >>,
+  \* _ prev_temp_validators:ValidatorSet = ConfigParam 33; cur_validators 34; cur_temp_validators 35; next_validators 36; next_temp_validators 37
+  ConfigParam33 |-> << Alt("cp33", <<>>, << F("prev_temp_validators", Lite(Named("ValidatorSet"))) >>) >>,
+  ConfigParam34 |-> << Alt("cp34", <<>>, << F("cur_validators", Lite(Named("ValidatorSet"))) >>) >>,
+  ConfigParam35 |-> << Alt("cp35", <<>>, << F("cur_temp_validators", Lite(Named("ValidatorSet"))) >>) >>,
+  ConfigParam36 |-> << Alt("cp36", <<>>, << F("next_validators", Lite(Named("ValidatorSet"))) >>) >>,
+  ConfigParam37 |-> << Alt("cp37", <<>>, << F("next_temp_validators", Lite(Named("ValidatorSet"))) >>) >>,
+  \* ---- stand-alone dictionary types
+  \* _ (HashmapAugE 32 KeyExtBlkRef KeyMaxLt) = OldMcBlocksInfo;   _ (HashmapAugE 256 ShardAccount DepthBalanceInfo) = ShardAccounts;
+  OldMcBlocksInfo |-> << Alt("old_mc_blocks_info", <<>>, << F("d", HmAugE(32, Named("KeyExtBlkRef"), Named("KeyMaxLt"))) >>) >>,
+  ShardAccounts |-> << Alt("shard_accounts", <<>>, << F("d", HmAugE(256, Lite(Named("ShardAccount")), Named("DepthBalanceInfo"))) >>) >>,
+  \* ---- highload wallet data (custom/wallet.py)
+  \* wallet_message$_ send_mode:uint8 message:^MessageAny = WalletMessage;
+  \* highload_wallet_data#_ wallet_id:uint32 last_cleaned:uint64 public_key:bits256 old_queries:(HashmapE 64 WalletMessage) = HighloadWalletData;
+  WalletMessage |-> << Alt("wallet_message", <<>>, << F("send_mode", U(8)), F("message", Ref(Lite(Named("Message")))) >>) >>,
+  HighloadWalletData |-> << Alt("highload_wallet_data", <<>>, << F("wallet_id", U(32)), F("last_cleaned", U(64)), F("public_key", Bits(256)),
+        F("old_queries", HmE(64, Named("WalletMessage"))) >>) >>,
+  \* ---- output action lists:  out_list_empty$_ = OutList 0;  out_list$_ {n:#} prev:^(OutList n) action:OutAction = OutList (n + 1);
+  \* (the length parameter n is part of the type: one transcribed type per length)
+  OutList0 |-> << Alt("out_list_empty", <<>>, <<>>) >>,
+  OutList1 |-> << Alt("out_list", <<>>, << F("prev", Ref(Named("OutList0"))), F("action", Named("OutAction")) >>) >>,
+  OutList2 |-> << Alt("out_list", <<>>, << F("prev", Ref(Named("OutList1"))), F("action", Named("OutAction")) >>) >>,
+  OutList3 |-> << Alt("out_list", <<>>, << F("prev", Ref(Named("OutList2"))), F("action", Named("OutAction")) >>) >>,
   \* ---- output actions
   \* libref_hash$0 lib_hash:bits256 = LibRef;  libref_ref$1 library:^Cell = LibRef;
   LibRef |-> << Alt("libref_hash", <<0>>, << F("lib_hash", Bits(256)) >>), Alt("libref_ref", <<1>>, << F("library", RefCell) >>) >>,
@@ -321,5 +350,16 @@ Labels == [
   \* anonymous ^[ ... ] groups of block.tlb, transcribed as auxiliary one-alternative types: no constructor of their own
   rest |-> "*", a |-> "*", b |-> "*", r1 |-> "*"
 ]
+\* configuration parameters that are another type under a new name (block.tlb: "_ GlobalVersion = ConfigParam 8;" ...): the
+\* library has one parser class per parameter; each is exercised with the values of the type it stands for
+SameAs == [
+  ConfigParam8 |-> "GlobalVersion", ConfigParam11 |-> "ConfigVotingSetup", ConfigParam13 |-> "ComplaintPricing", ConfigParam14 |-> "BlockCreateFees",
+  ConfigParam20 |-> "GasLimitsPrices", ConfigParam21 |-> "GasLimitsPrices", ConfigParam22 |-> "BlockLimits", ConfigParam23 |-> "BlockLimits",
+  ConfigParam24 |-> "MsgForwardPrices", ConfigParam25 |-> "MsgForwardPrices", ConfigParam28 |-> "CatchainConfig", ConfigParam29 |-> "ConsensusConfig",
+  ConfigParam44 |-> "SuspendedAddressList", ConfigParam71 |-> "OracleBridgeParams", ConfigParam72 |-> "OracleBridgeParams",
+  ConfigParam73 |-> "OracleBridgeParams", ConfigParam79 |-> "JettonBridgeParams", ConfigParam81 |-> "JettonBridgeParams", ConfigParam82 |-> "JettonBridgeParams",
+  BlkPrevInfoA |-> "BlkPrevInfo0", BlkPrevInfoB |-> "BlkPrevInfo1"
+]
+TypeOf(nm) == IF nm \in DOMAIN SameAs THEN SameAs[nm] ELSE nm
 LabelOf(c) == IF c \in DOMAIN Labels THEN Labels[c] ELSE c
 =============================================================================
